@@ -70,19 +70,4 @@ func (c37) Run(raw json.RawMessage) Result {
 	return Result{Obs: obs, Coq: coq, Nontrivial: cls != "plain" && cls != "empty", Class: cls}
 }
 
-func (c37) Shrink(raw json.RawMessage) []any {
-	var c tokCase
-	if json.Unmarshal(raw, &c) != nil {
-		return nil
-	}
-	s := c.runes()
-	var out []any
-	if len(s) > 3 {
-		out = append(out, tokMk(s[:len(s)/2], 0), tokMk(s[len(s)/2:], 0))
-	}
-	for i := range s {
-		t := append(append([]rune(nil), s[:i]...), s[i+1:]...)
-		out = append(out, tokMk(t, 0))
-	}
-	return out
-}
+func (c37) Shrink(raw json.RawMessage) []any { return tokShrink(raw) }
